@@ -95,6 +95,18 @@ pub struct Exec {
     ft: ckb_systemtime::FaketimeGuard,
     progress: Option<std::fs::File>,
     max_reorg: u64,
+    /// C03, header_path 1: the peers' header check (built on first use)
+    peer: Option<crate::peerhdr::PeerHdr>,
+}
+
+/// what the relay path did with a block
+enum Relayed {
+    /// header not accepted: the block goes nowhere
+    Refused,
+    /// header accepted, the block was not handed to the chain service by the handler
+    Direct,
+    /// header accepted and the handler has queued the block at the chain service
+    Queued,
 }
 
 fn hex(b: &packed::Byte32) -> String {
@@ -214,6 +226,7 @@ impl Exec {
             ft,
             progress,
             max_reorg: 0,
+            peer: None,
         })
     }
 
@@ -635,6 +648,7 @@ impl Exec {
         if finished && self.res.violation.is_none() {
             let r = std::panic::catch_unwind(std::panic::AssertUnwindSafe(|| {
                 self.node.drain();
+                self.pull_relay_verdicts();
                 self.observe("final_drain");
                 self.final_checks();
             }));
@@ -676,6 +690,7 @@ impl Exec {
                 }
             }
         }
+        self.pull_relay_verdicts();
         self.eff_ops.push(op.clone());
         match op {
             Op::Deliver { b } => {
@@ -692,9 +707,27 @@ impl Exec {
                     return;
                 }
                 let v = self.w.blocks[*b].view.clone();
+                // header_path 2: the relay handler itself has handed the block to the chain service
+                let mut relayed = false;
                 if self.sc.header_stage {
                     self.tick();
-                    if !self.header_stage(*b, &v) {
+                    let pass = if self.sc.miner_blocks.contains(b) {
+                        self.header_stage(*b, &v)
+                    } else {
+                        match self.sc.header_path {
+                            1 => self.peer_header_stage(*b),
+                            2 => match self.relay_header_stage(*b, &v) {
+                                Relayed::Refused => false,
+                                Relayed::Direct => true,
+                                Relayed::Queued => {
+                                    relayed = true;
+                                    true
+                                }
+                            },
+                            _ => self.header_stage(*b, &v),
+                        }
+                    };
+                    if !pass {
                         self.eff_ops.pop();
                         return;
                     }
@@ -713,6 +746,10 @@ impl Exec {
                 if self.delivered.len() <= self.sc.assume_valid_first && self.sc.assume_valid_first > 0 && self.w.blocks[*b].chain_valid {
                     self.res.faults.inc("delivered_with_scripts_disabled");
                     self.node.deliver_with(&v, Some(ckb_verification_traits::Switch::DISABLE_SCRIPT));
+                } else if relayed {
+                    // stage 1 on the request the relay handler queued (its callback, not ours:
+                    // error verdicts come back as bans, see pull_relay_verdicts)
+                    while self.node.chain.step_insert_queued() {}
                 } else {
                     self.node.deliver(&v);
                 }
@@ -1040,6 +1077,418 @@ impl Exec {
                 self.res.probes.inc("header_stage_passed");
                 true
             }
+        }
+    }
+
+    /// C03, header_path 1: the header stage of the pipeline as a peer's announcement passes it
+    /// (headers-first sync). One `SendHeaders` message from a simulated peer goes through the real
+    /// `Synchronizer::received`; the block goes on to the chain service iff the node then holds its
+    /// header as valid. The oracle is the model's reading of the header rules at the node's clock,
+    /// applied to every header of the message in order (the handler stops at the first header it
+    /// does not accept):
+    ///  * parent never accepted by the node (never announced, or refused without a mark) -> refused
+    ///    as "unknown parent": a probe, not a rule verdict;
+    ///  * parent marked invalid (by this path or by the chain service) -> refused;
+    ///  * otherwise the verdict of `World::header_verdict`: Ok must be accepted, the header-only
+    ///    kinds must be refused, the epoch kinds may also be left to the chain service.
+    /// A header the node holds as invalid already (its block failed in the chain service, or an
+    /// earlier announcement marked it) carries no demand.
+    fn peer_header_stage(&mut self, b: usize) -> bool {
+        use crate::peerhdr::{Ann, PeerHdr};
+        if self.peer.is_none() {
+            let rx = self.node.pack.take_relay_tx_receiver();
+            let ss = Arc::new(ckb_sync::SyncShared::new(self.node.shared.clone(), Default::default(), rx));
+            self.peer = Some(PeerHdr::new(ss, self.node.chain.controller().clone()));
+        }
+        // blocks the chain service has judged invalid (it marks them in the shared status map)
+        let chain_bad: BTreeSet<usize> = self.node.verdicts.lock().unwrap().iter().filter(|(_, r)| r.is_err()).filter_map(|(h, _)| self.w.by_hash.get(h).cloned()).collect();
+        let state_of = |me: &Exec, i: usize| me.peer.as_ref().unwrap().state.get(&i).cloned();
+        let parent = self.w.blocks[b].parent.unwrap();
+        let mut choice = simcore::Rng::new(self.sc.seed ^ 0x9EE2_0000 ^ ((self.res.steps as u64) << 20) ^ b as u64);
+        let batching = match self.sc.peer_style {
+            1 => true,
+            2 => choice.chance(1, 2),
+            _ => false,
+        };
+        // the message: the header, preceded (when batching) by the ancestors the peer has not sent yet
+        let mut msg: Vec<usize> = vec![b];
+        if batching {
+            let mut p = parent;
+            while p != 0 && state_of(self, p).is_none() && !chain_bad.contains(&p) && !self.delivered_set.contains(&p) && msg.len() < 1500 {
+                msg.push(p);
+                p = self.w.blocks[p].parent.unwrap();
+            }
+            msg.reverse();
+            if msg.len() > 1 {
+                self.res.probes.inc("peer_header_batch_announced");
+                self.res.probes.add("peer_header_batch_headers", msg.len() as u64);
+            }
+        } else if self.sc.peer_style != 3 && parent != 0 && state_of(self, parent).is_none() && !chain_bad.contains(&parent) && !self.delivered_set.contains(&parent) {
+            // a peer that announces one header per message, parents first: it has nothing to say yet
+            self.res.probes.inc("peer_header_parent_unknown");
+            self.res.probes.inc("peer_header_held_back");
+            self.ev(&format!("peer holds back header {b}: parent {parent} not announced"));
+            self.il.write_u64(0x4902);
+            return false;
+        }
+        let headers: Vec<ckb_types::core::HeaderView> = msg.iter().map(|i| self.w.blocks[*i].view.header()).collect();
+        for i in &msg {
+            if !self.peer.as_mut().unwrap().sent_once.insert(*i) {
+                self.res.probes.inc("peer_header_announced_again");
+            }
+        }
+        let out = match self.peer.as_mut().unwrap().announce(&headers) {
+            Ok(o) => o,
+            Err(e) => {
+                self.viol("C03", "peer_header_handler_did_not_complete", e);
+                return false;
+            }
+        };
+        if self.node.shared.is_initial_block_download() {
+            self.res.probes.inc("peer_header_announced_in_ibd");
+        }
+        if self.peer.as_ref().unwrap().tasks() != 0 {
+            self.res.harness_error = Some("the sync handler handed a task to the network context".into());
+        }
+        for s in &out.sent {
+            self.res.probes.inc(&format!("peer_node_sent:{s}"));
+        }
+        let banned = !out.banned.is_empty();
+        if banned {
+            self.res.probes.inc("peer_banned");
+        }
+        // ---- the oracle, header by header
+        let mut live = true; // the handler is still going through the message
+        let mut b_accepted = false;
+        let mut all_demanded = true; // every header so far had to be accepted
+        for (k, i) in msg.iter().enumerate() {
+            let i = *i;
+            let hash = self.w.blocks[i].view.hash();
+            let seen = self.peer.as_ref().unwrap().seen(&hash);
+            let before = state_of(self, i);
+            let p = self.w.blocks[i].parent.unwrap();
+            let n = self.w.blocks[i].number;
+            let model = self.w.header_verdict(i, self.now);
+            if !live {
+                // after the first header that was not accepted nothing is looked at
+                if seen.valid && before != Some(Ann::Accepted) {
+                    self.viol("C03", "peer_header_path_accepts_header_after_refused_one", format!("message {:?}: header #{i} became valid although an earlier header of the message was not accepted", msg));
+                }
+                self.res.probes.inc("peer_header_not_reached");
+                continue;
+            }
+            let held_invalid = chain_bad.contains(&i) || matches!(before, Some(Ann::Marked(_)));
+            // how the node must see the parent
+            let parent_invalid = p != 0 && (chain_bad.contains(&p) || matches!(state_of(self, p), Some(Ann::Marked(_))));
+            // (a locally mined block is known from the store as soon as the chain service has taken it)
+            let parent_known = p == 0 || state_of(self, p) == Some(Ann::Accepted) || (self.sc.miner_blocks.contains(&p) && self.delivered_set.contains(&p));
+            self.il.write_u64(0x4900 + seen.valid as u64);
+            let what: String;
+            if before == Some(Ann::Accepted) && !held_invalid {
+                // known as valid: the handler answers from its status map
+                what = "known".into();
+                self.res.probes.inc("peer_header_known_valid");
+                if !seen.valid {
+                    self.viol("C03", "peer_header_path_refuses_valid_header", format!("header #{i} (n={n}) was accepted before, nothing has judged its block invalid, and the node no longer holds it as valid after a second announcement (known {} invalid {})", seen.known, seen.invalid));
+                }
+            } else if held_invalid {
+                all_demanded = false;
+                what = "held_invalid".into();
+                if seen.valid {
+                    // a mark is only ever removed by the chain service when the block verifies
+                    self.res.probes.inc("peer_header_invalid_mark_cleared");
+                }
+                let by_orphan = matches!(before, Some(Ann::Marked("parent_unknown"))) && !chain_bad.contains(&i);
+                if by_orphan && parent_known && !parent_invalid && model.is_ok() && !seen.valid {
+                    // announced once before its parent, announced properly now: still invalid
+                    let d = format!("header #{i} (n={n}) meets every header rule at clock {}, its parent #{p} is held valid, but the node keeps the BLOCK_INVALID mark it set when the header was first announced before its parent (header map has it: {})", self.now, seen.in_header_map);
+                    if self.sc.peer_strict_orphan {
+                        self.viol("C03", "peer_header_marked_invalid_by_orphan_announcement", d);
+                    }
+                    self.res.probes.inc("peer_header_unknown_parent_marked_invalid_permanently");
+                } else {
+                    self.res.probes.inc("peer_header_of_invalid_block_again");
+                }
+            } else if parent_invalid {
+                all_demanded = false;
+                what = "invalid_parent".into();
+                if seen.valid {
+                    self.viol("C03", "peer_header_path_accepts_invalid_header:invalid_parent", format!("header #{i} (n={n}): its parent #{p} is marked invalid, yet the node holds the header as valid"));
+                }
+                self.res.probes.inc("peer_header_refused:invalid_parent");
+                if seen.invalid {
+                    self.peer.as_mut().unwrap().state.insert(i, Ann::Marked("invalid_parent"));
+                }
+            } else if !parent_known {
+                all_demanded = false;
+                what = "parent_unknown".into();
+                if seen.valid {
+                    self.viol("C03", "peer_header_path_accepts_invalid_header:parent_unknown", format!("header #{i} (n={n}): the node never accepted its parent #{p}, yet it holds the header as valid"));
+                }
+                self.res.probes.inc("peer_header_parent_unknown");
+                if seen.invalid {
+                    // observation: an unknown parent is treated like a broken rule (mark + ban)
+                    self.res.probes.inc("peer_header_parent_unknown_marked_invalid");
+                    self.peer.as_mut().unwrap().state.insert(i, Ann::Marked("parent_unknown"));
+                }
+            } else {
+                match model {
+                    Ok(()) => {
+                        what = "ok".into();
+                        if !seen.valid {
+                            let d = format!("header #{i} (n={n}) meets every header rule at clock {}, its parent #{p} is held valid, but the peers' header path did not accept it (message {:?}, position {k}; known {} invalid {} banned {:?})", self.now, msg, seen.known, seen.invalid, out.banned.first());
+                            self.viol("C03", "peer_header_path_refuses_valid_header", d.clone());
+                            if out.banned.iter().any(|r| r.contains("Pow") || r.contains("Nonce")) {
+                                self.viol("C07", "pow_refuses_hash_within_target", d);
+                            }
+                        } else {
+                            self.res.probes.inc("peer_header_passed");
+                            if self.w.blocks[i].view.timestamp() == self.now + crate::model::ALLOWED_FUTURE_MS {
+                                self.res.probes.inc("peer_header_at_future_bound_accepted");
+                            }
+                            if self.w.blocks[i].view.timestamp() == self.w.median_time(&self.w.chain_of(p)) + 1 {
+                                self.res.probes.inc("peer_header_at_median_plus_one_accepted");
+                            }
+                            if self.peer.as_mut().unwrap().too_new.remove(&i) {
+                                self.res.probes.inc("peer_header_accepted_after_clock_moved");
+                            }
+                        }
+                    }
+                    Err(kind) => {
+                        all_demanded = false;
+                        what = kind.into();
+                        if matches!(kind, "pow" | "number" | "ts_too_old" | "ts_too_new") {
+                            if seen.valid {
+                                let d = format!("header #{i} (n={n}) breaks the header rule `{kind}` at clock {} but the peers' header path holds it as valid (message {:?}, position {k})", self.now, msg);
+                                self.viol("C03", &format!("peer_header_path_accepts_invalid_header:{kind}"), d.clone());
+                                if kind == "pow" {
+                                    self.viol("C07", "pow_accepts_hash_above_target", d);
+                                }
+                            } else {
+                                self.res.probes.inc(&format!("peer_header_refused:{kind}"));
+                                self.res.nontrivial = true;
+                                if kind == "ts_too_new" {
+                                    self.peer.as_mut().unwrap().too_new.insert(i);
+                                }
+                                if kind == "ts_too_new" && seen.invalid {
+                                    // would keep refusing it once the clock has caught up
+                                    self.res.probes.inc("peer_header_too_new_marked_invalid_permanently");
+                                }
+                                if kind != "ts_too_new" && !seen.invalid {
+                                    self.res.probes.inc("peer_header_refused_without_mark");
+                                }
+                                if kind != "ts_too_new" && !banned {
+                                    self.res.probes.inc("peer_header_refused_without_ban");
+                                }
+                            }
+                        } else if seen.valid {
+                            self.res.probes.inc(&format!("peer_header_left_to_chain:{kind}"));
+                        } else {
+                            self.res.probes.inc(&format!("peer_header_refused:{kind}"));
+                            self.res.nontrivial = true;
+                        }
+                        if seen.invalid {
+                            self.peer.as_mut().unwrap().state.insert(i, Ann::Marked(kind));
+                        }
+                    }
+                }
+            }
+            if seen.valid {
+                if !held_invalid {
+                    self.peer.as_mut().unwrap().state.insert(i, Ann::Accepted);
+                }
+            } else {
+                live = false;
+            }
+            if i == b {
+                b_accepted = seen.valid;
+            }
+            self.ev(&format!("peer header {i} n={n} [{what}] -> valid {} known {} invalid {}", seen.valid, seen.known, seen.invalid));
+        }
+        if banned && live && all_demanded {
+            self.viol("C03", "peer_header_path_refuses_valid_header", format!("message {:?}: every header is valid and was accepted, yet the peer was banned: {}", msg, out.banned[0]));
+        }
+        self.ev(&format!("peer {} announced {:?} banned {} replies {:?}", self.peer.as_ref().unwrap().peer, msg, banned, out.sent));
+        if banned {
+            self.peer.as_mut().unwrap().replace_peer();
+        }
+        b_accepted
+    }
+
+    /// header_path 2: a block the relay handler handed to the chain service carries the handler's
+    /// verdict callback; an error verdict reaches the simulator as a ban ("block 0x.. is invalid,
+    /// reason: ..") on the relay context. They are filed with the verdicts of the other deliveries.
+    fn pull_relay_verdicts(&mut self) {
+        let Some(p) = self.peer.as_mut() else { return };
+        for r in p.take_relay_bans() {
+            // "BlockIsInvalid(401): block Byte32(0x..) is invalid, reason: .."
+            let Some(at) = r.find("block ").and_then(|a| r[a..].find("0x").map(|x| a + x + 2)) else {
+                self.res.probes.inc("relay_late_ban_other");
+                continue;
+            };
+            let hexs: String = r[at..].chars().take(64).collect();
+            let mut raw = [0u8; 32];
+            let ok = hexs.len() == 64 && (0..32).all(|i| u8::from_str_radix(&hexs[2 * i..2 * i + 2], 16).map(|x| raw[i] = x).is_ok());
+            if !ok {
+                self.res.probes.inc("relay_late_ban_other");
+                continue;
+            }
+            let h = packed::Byte32::from_slice(&raw).unwrap();
+            let reason = r.split("reason: ").nth(1).unwrap_or(&r).to_string();
+            self.res.probes.inc("relay_block_error_verdict");
+            self.node.verdicts.lock().unwrap().push((h, Err(reason)));
+        }
+    }
+
+    /// C03, header_path 2: the header stage as the compact-block relay runs it. The simulated peer
+    /// relays the block as a `CompactBlock` (every transaction prefilled) to the real
+    /// `Relayer::received`: staleness and size checks, status shortcuts, parent lookup, the header
+    /// check over the relay's own median-time view (pending compact blocks first, then header map
+    /// and store), reconstruction, `accept_block`. Same oracle as `peer_header_stage` for the header
+    /// part, with the demands that are sound for this path:
+    ///  * a header that breaks a header-only rule must not be held valid afterwards;
+    ///  * the header of a block without any mutation of its own, whose parent the node holds as a
+    ///    header, which is neither stale nor known, must be held valid afterwards.
+    /// Whatever the relay path does not take (parent never announced, stale, known already, initial
+    /// block download) goes through the headers-first path instead, as in a real node.
+    fn relay_header_stage(&mut self, b: usize, v: &ckb_types::core::BlockView) -> Relayed {
+        use crate::peerhdr::{Ann, PeerHdr};
+        let via_sync = |me: &mut Exec, why: &str| -> Relayed {
+            me.res.probes.inc(&format!("relay_left_to_sync:{why}"));
+            if me.peer_header_stage(b) { Relayed::Direct } else { Relayed::Refused }
+        };
+        if self.peer.is_none() {
+            let rx = self.node.pack.take_relay_tx_receiver();
+            let ss = Arc::new(ckb_sync::SyncShared::new(self.node.shared.clone(), Default::default(), rx));
+            self.peer = Some(PeerHdr::new(ss, self.node.chain.controller().clone()));
+        }
+        let chain_bad: BTreeSet<usize> = self.node.verdicts.lock().unwrap().iter().filter(|(_, r)| r.is_err()).filter_map(|(h, _)| self.w.by_hash.get(h).cloned()).collect();
+        let p = self.w.blocks[b].parent.unwrap();
+        let n = self.w.blocks[b].number;
+        let before = self.peer.as_ref().unwrap().state.get(&b).cloned();
+        let pstate = self.peer.as_ref().unwrap().state.get(&p).cloned();
+        if self.node.shared.is_initial_block_download() {
+            return via_sync(self, "ibd");
+        }
+        if before.is_some() || self.delivered_set.contains(&b) || chain_bad.contains(&b) {
+            return via_sync(self, "known");
+        }
+        if p != 0 && pstate != Some(Ann::Accepted) {
+            // (the relay handler would ask for headers and wait for the headers-first path)
+            return via_sync(self, "parent_not_accepted");
+        }
+        let (tip_n, epoch_len) = {
+            let snap = self.node.shared.snapshot();
+            (snap.tip_number(), snap.epoch_ext().length())
+        };
+        if tip_n.saturating_sub(epoch_len) > n {
+            return via_sync(self, "stale");
+        }
+        if self.node.chain.insert_pending() != 0 {
+            self.res.harness_error = Some("requests queued at the chain service before a relay".into());
+        }
+        let parent_invalid = p != 0 && chain_bad.contains(&p);
+        let out = match self.peer.as_mut().unwrap().relay_compact(v) {
+            Ok(o) => o,
+            Err(e) => {
+                self.viol("C03", "relay_handler_did_not_complete", e);
+                return Relayed::Refused;
+            }
+        };
+        self.peer.as_mut().unwrap().sent_once.insert(b);
+        let hash = v.hash();
+        let seen = self.peer.as_ref().unwrap().seen(&hash);
+        let banned = !out.banned.is_empty();
+        if banned {
+            self.res.probes.inc("relay_peer_banned");
+        }
+        let queued = self.node.chain.insert_pending();
+        let model = self.w.header_verdict(b, self.now);
+        let pristine = self.w.blocks[b].invalid.is_none();
+        self.il.write_u64(0x4a00 + seen.valid as u64);
+        let what: String;
+        match model {
+            Ok(()) => {
+                what = if pristine { "ok".into() } else { "ok_block_mutant".into() };
+                if seen.valid {
+                    self.res.probes.inc("relay_header_passed");
+                    if parent_invalid {
+                        // the relay's header part does not look at the parent's invalid mark
+                        self.res.probes.inc("relay_header_passed_under_invalid_parent");
+                    }
+                    if self.w.blocks[b].view.timestamp() == self.now + crate::model::ALLOWED_FUTURE_MS {
+                        self.res.probes.inc("relay_header_at_future_bound_accepted");
+                    }
+                    if self.w.blocks[b].view.timestamp() == self.w.median_time(&self.w.chain_of(p)) + 1 {
+                        self.res.probes.inc("relay_header_at_median_plus_one_accepted");
+                    }
+                } else if pristine {
+                    let d = format!("block #{b} (n={n}) carries no mutation, its header meets every header rule at clock {}, its parent #{p} is held as a header (invalid mark: {parent_invalid}), tip {tip_n}, but the compact-block relay did not accept the header (known {} invalid {} banned {:?})", self.now, seen.known, seen.invalid, out.banned.first());
+                    self.viol("C03", "relay_path_refuses_valid_header", d);
+                } else {
+                    // the relay refuses some malformed blocks before or right after the header check
+                    self.res.probes.inc(&format!("relay_refused_block_mutant:{}", self.w.blocks[b].invalid.clone().unwrap_or_default()));
+                }
+            }
+            Err(kind) => {
+                what = kind.into();
+                if matches!(kind, "pow" | "number" | "ts_too_old" | "ts_too_new") {
+                    if seen.valid {
+                        let d = format!("block #{b} (n={n}): the header breaks the rule `{kind}` at clock {} but the compact-block relay holds it as valid", self.now);
+                        self.viol("C03", &format!("relay_path_accepts_invalid_header:{kind}"), d);
+                    } else {
+                        self.res.probes.inc(&format!("relay_header_refused:{kind}"));
+                        self.res.nontrivial = true;
+                        if kind == "ts_too_new" {
+                            self.peer.as_mut().unwrap().too_new.insert(b);
+                            if seen.invalid {
+                                self.res.probes.inc("relay_header_too_new_marked_invalid_permanently");
+                            }
+                        } else {
+                            if !seen.invalid {
+                                self.res.probes.inc("relay_header_refused_without_mark");
+                            }
+                            if !banned {
+                                self.res.probes.inc("relay_header_refused_without_ban");
+                            }
+                        }
+                    }
+                } else if seen.valid {
+                    self.res.probes.inc(&format!("relay_header_left_to_chain:{kind}"));
+                } else {
+                    self.res.probes.inc(&format!("relay_header_refused:{kind}"));
+                    self.res.nontrivial = true;
+                }
+                if seen.invalid {
+                    self.peer.as_mut().unwrap().state.insert(b, Ann::Marked(kind));
+                }
+            }
+        }
+        if !seen.valid && seen.invalid && self.peer.as_ref().unwrap().state.get(&b).is_none() {
+            self.peer.as_mut().unwrap().state.insert(b, Ann::Marked("relay"));
+        }
+        self.ev(&format!("relay block {b} n={n} [{what}] -> valid {} known {} invalid {} banned {} queued {}", seen.valid, seen.known, seen.invalid, banned, queued));
+        if banned {
+            self.peer.as_mut().unwrap().replace_peer();
+        }
+        if !seen.valid {
+            if queued != 0 {
+                self.viol("C03", "relay_path_hands_over_block_without_valid_header", format!("block #{b} (n={n}) was handed to the chain service although its header is not held valid"));
+            }
+            return Relayed::Refused;
+        }
+        self.peer.as_mut().unwrap().state.insert(b, Ann::Accepted);
+        if self.peer.as_mut().unwrap().too_new.remove(&b) {
+            self.res.probes.inc("relay_header_accepted_after_clock_moved");
+        }
+        if queued != 0 {
+            self.res.probes.inc("relay_block_reconstructed_and_handed_over");
+            Relayed::Queued
+        } else {
+            // uncles the node does not have (it asks the peer for them), an uncle it holds invalid,
+            // a malformed compact block: the header is in, the block comes by the sync path
+            self.res.probes.inc("relay_block_not_handed_over");
+            Relayed::Direct
         }
     }
 
